@@ -141,6 +141,28 @@ class Helper:
             except Exception:
                 pass
 
+        # a generator that only maps one iterable (`for T in I: [t = e]*; yield E`) is the generator expression (E for T in I): it can stand
+        # wherever the call is an argument (a call iterated by a `for` statement / `yield from` is expanded at statement level instead)
+        if self.is_gen and self.expr is None:
+            stmts = [x for x in body if not (isinstance(x, ast.Expr) and isinstance(x.value, ast.Constant) and isinstance(x.value.value, str))]
+            if len(stmts) == 1 and isinstance(stmts[0], ast.For) and not stmts[0].orelse and stmts[0].body:
+                lp = stmts[0]
+                *pre_, last_ = lp.body
+                tnames = {n.id for n in ast.walk(lp.target) if isinstance(n, ast.Name)}
+                if isinstance(last_, ast.Expr) and isinstance(last_.value, ast.Yield) and last_.value.value is not None \
+                        and all(isinstance(x, ast.Assign) and len(x.targets) == 1 and isinstance(x.targets[0], ast.Name) for x in pre_) \
+                        and not _has(pre_, (ast.Yield, ast.YieldFrom)) and not _has([ast.Expr(value=last_.value.value)], (ast.Yield, ast.YieldFrom)):
+                    temps = [x.targets[0].id for x in pre_]
+                    uses = {t: sum(1 for x in lp.body for n in ast.walk(x) if isinstance(n, ast.Name) and n.id == t and isinstance(n.ctx, ast.Load)) for t in temps}
+                    if len(set(temps)) == len(temps) and not (set(temps) & (set(self.params) | tnames)) and all(u <= 1 for u in uses.values()):
+                        m = {}
+                        for x in pre_:
+                            m[x.targets[0].id] = _Subst(m).visit(copy.deepcopy(x.value))
+                        elt = _Subst(m).visit(copy.deepcopy(last_.value.value))
+                        ge = ast.GeneratorExp(elt=elt, generators=[ast.comprehension(target=copy.deepcopy(lp.target), iter=copy.deepcopy(lp.iter), ifs=[], is_async=0)])
+                        self.expr = ast.fix_missing_locations(ast.copy_location(ge, lp))
+                        self.expr_simple = True
+
     def bind(self, call, receiver):
         """param -> argument expression"""
         if any(isinstance(x, ast.Starred) for x in call.args) or any(k.arg is None for k in call.keywords):
@@ -487,6 +509,33 @@ class Inliner:
         inl = self
 
         class T(ast.NodeTransformer):
+            def _skip_iter(self, node, fld):
+                # `for x in gen_helper(..)` / `yield from gen_helper(..)`: expanded at statement level
+                it = getattr(node, fld)
+                if isinstance(it, ast.Call):
+                    h_, _ = inl.helper_of(it)
+                    if h_ is not None and h_.is_gen:
+                        for f_, v_ in ast.iter_fields(it):
+                            if isinstance(v_, list):
+                                setattr(it, f_, [self.visit(x) if isinstance(x, ast.AST) else x for x in v_])
+                            elif isinstance(v_, ast.AST):
+                                setattr(it, f_, self.visit(v_))
+                        for f_, v_ in ast.iter_fields(node):
+                            if f_ == fld:
+                                continue
+                            if isinstance(v_, list):
+                                setattr(node, f_, [self.visit(x) if isinstance(x, ast.AST) else x for x in v_])
+                            elif isinstance(v_, ast.AST):
+                                setattr(node, f_, self.visit(v_))
+                        return node
+                return self.generic_visit(node)
+
+            def visit_For(self, node):
+                return self._skip_iter(node, 'iter')
+
+            def visit_YieldFrom(self, node):
+                return self._skip_iter(node, 'value')
+
             def visit_Call(self, c):
                 self.generic_visit(c)
                 h, recv = inl.helper_of(c)
